@@ -143,7 +143,7 @@ PROPS = {
         extract="typegraph",
         lean_modules=["S2S.Props.C13", "S2S.Props.C13V"],
         required_theorems=["C13_unmapped_untouched", "C13_single_application", "C13_bimap_rejects_exactly_non_injective", "C13_roundtrip", "C13_direction_roundtrip", "C13_only_namespace_fields_assigned",
-                           "C13_only_names_change", "C13_nothing_to_map_is_identity", "C13_unmatched_is_unchanged", "C13_round_trip", "C13_round_trip_of_accepted_config", "C13_sa_round_trip", "C13_round_trip_needs_nonempty"],
+                           "C13_only_names_change", "C13_nothing_to_map_is_identity", "C13_unmatched_is_unchanged", "C13_round_trip", "C13_round_trip_of_accepted_config", "C13_sa_round_trip", "C13_round_trip_needs_nonempty", "C13_applied_twice_is_not_once", "C13_applied_twice_is_once_when_disjoint"],
         rule="NewStaticBiMap on EVERY pair list up to length 3 (quick) / 4 (thorough) over a 4-name alphabet (all non-injective lists included) + start-up of real "
              "cluster connections with (non-)injective mappings; exact-match lookups and round trips through the real translator for names incl. prefixes, "
              "substrings, case variants, empty, chains a->b,b->c and swaps; direction observed end to end through a running proxy pair on both servers with and "
